@@ -53,3 +53,18 @@ Example C19_example_on : map (fun b => into_text (bt b)) (import_items_order cfg
 Proof. vm_compute. reflexivity. Qed.
 Example C19_example_off : map (fun b => into_text (bt b)) (import_items_order cfg_default [leaf_item 98; leaf_item 97]) = [[98]; [97]].
 Proof. vm_compute. reflexivity. Qed.
+
+(* the order in which the items are laid out is `import_items_final may_reorder nodes`, where may_reorder is false
+   as soon as a comment sits among the import's other children (between the keyword, the path, the colon and the
+   items): such an import keeps its order whatever the flag says *)
+Theorem C19_comment_outside_list_keeps_order :
+  forall cfg nodes, import_items_final cfg false nodes = nodes.
+Proof. reflexivity. Qed.
+Theorem C19_final_is_permutation :
+  forall cfg mr nodes, Permutation (import_items_final cfg mr nodes) nodes.
+Proof. intros cfg mr nodes. unfold import_items_final. destruct mr; [apply import_order_permutation|apply Permutation_refl]. Qed.
+Theorem C19_final_off_keeps_source_order :
+  forall cfg mr nodes, reorder_import_items cfg = false -> import_items_final cfg mr nodes = nodes.
+Proof. intros cfg mr nodes H. unfold import_items_final. destruct mr; [apply import_order_off; exact H|reflexivity]. Qed.
+Print Assumptions C19_final_is_permutation.
+Print Assumptions C19_final_off_keeps_source_order.
